@@ -117,7 +117,11 @@ func vpH_C07_dv() {
 	r, err := seg.DocumentValueReader(fields)
 	vpMust(err, "DocumentValueReader")
 	cnt := len(held)
-	for step := 0; step < 3; step++ {
+	steps := 3
+	if len(held) > len(docs) && !vpThorough() {
+		steps = 2 // merged variants hold more documents: two visits in the quick tier
+	}
+	for step := 0; step < steps; step++ {
 		n := vpChoice("visit", cnt+1) // cnt = beyond the last document
 		vpDvVisit("dv", r, uint64(n), fields, exp)
 	}
